@@ -4,6 +4,7 @@ package main
 // the independent specification in spec.go.
 
 import (
+	"os"
 	"fmt"
 	"go/ast"
 	"go/constant"
@@ -95,7 +96,36 @@ func ruleTabNote(c *Ctx) {
 	}
 	// accidentals
 	wantAcc := map[string]int64{"Natural": 0, "Sharp": 1, "Flat": -1, "DoubleSharp": 2, "DoubleFlat": -2}
-	if m, v, _ := c.mapTable("note", "map[note.Accidental]note.Semitone", "accidentalSemitoneMap"); m != nil {
+	// decided on the accessor when it folds (a table lookup and a switch are alike), else on the table literal
+	accFolded := false
+	if fn := c.fn("note", "Accidental.Semitone"); fn != nil {
+		enum := c.enumConsts("note", "Accidental")
+		vals := map[string]int64{}
+		okAll := len(enum) > 0
+		for name := range wantAcc {
+			k, has := enum[name]
+			if !has {
+				okAll = false
+				break
+			}
+			r, err := c.newFolder().foldCall(fn, []fval{{k: constant.MakeInt64(k), t: fn.Params[0].Type()}})
+			if err != nil || r.k == nil || r.k.Kind() != constant.Int {
+				okAll = false
+				break
+			}
+			vals[name], _ = constant.Int64Val(r.k)
+		}
+		if okAll {
+			accFolded = true
+			for _, name := range sortedKeys(wantAcc) {
+				c.site(1)
+				c.check(vals[name] == wantAcc[name], "note.accidentalSemitoneMap|"+name, c.pos(fn.Pos()), fname(fn), fmt.Sprintf("%s alters by %d (folded from Accidental.Semitone)", name, vals[name]), fmt.Sprintf("%s alters by %d semitones, should be %d", name, vals[name], wantAcc[name]))
+			}
+		}
+	}
+	if accFolded {
+		// nothing more to read from a table
+	} else if m, v, _ := c.mapTable("note", "map[note.Accidental]note.Semitone", "accidentalSemitoneMap"); m != nil {
 		tab := "note." + v.Name()
 		got := map[string]bool{}
 		for _, e := range m.Entries {
@@ -550,6 +580,11 @@ func ruleTabDegree(c *Ctx) {
 		}
 	}
 
+	// when the size function folds for every (number, quality) the algorithm needs no shape analysis: decide it by value
+	if done := c.degreeSizesByFolding(); done {
+		c.checkCoerceTables()
+		return
+	}
 	// adjustment tuples from the code that searches the table
 	var tuples []adjustTuple
 	var host *ast.FuncDecl
@@ -667,6 +702,11 @@ func ruleTabDegree(c *Ctx) {
 		}
 	}
 
+	c.checkCoerceTables()
+}
+
+// checkCoerceTables: the quality -> notation-class table and the candidates each class tries.
+func (c *Ctx) checkCoerceTables() {
 	// coercion table: DegreeName -> CoerceDegreeName
 	if m, v2, _ := c.mapTable("note", "map[note.DegreeName]note.CoerceDegreeName", "degreeCoerceMap"); m != nil {
 		want := map[string]string{
@@ -1367,7 +1407,6 @@ func (c *Ctx) foldSwitchIndex(fn *ssa.Function, arg int64) (int64, error) {
 
 var _ = syntax.Perl
 
-
 // checkScaleAccidentalSets folds op.newScaleAccidentals(n) for n = -7..7 and compares the letters passed to the set
 // constructor and the isSharp flag with the circle of fifths: n flats = the first -n letters of B E A D G C F,
 // n sharps = the first n letters of F C G D A E B. Anything executed before the sign test (a clamp, a remap) is covered.
@@ -1435,4 +1474,62 @@ func (c *Ctx) checkScaleAccidentalSets() {
 		good := strings.Join(got, "") == strings.Join(ws, "") && results[n].sharp == (n > 0)
 		c.check(good, key, c.pos(fn.Pos()), fname(fn), fmt.Sprintf("signature %+d alters %v", n, want), fmt.Sprintf("a signature of %+d alters %v (sharp=%v), want %v (sharp=%v): keys with that signature get a wrong scale", n, results[n].letters, results[n].sharp, want, n > 0))
 	}
+}
+
+// degreeSizesByFolding folds note.Degree.Semitone on every number 0..64 and every quality (plus the unknown one) and
+// compares size and validity with the specification. It reports false (and emits nothing) when the function does not
+// fold, e.g. when it searches its table by ranging over the map; the shape analysis then takes over.
+func (c *Ctx) degreeSizesByFolding() bool {
+	fn := c.fn("note", "Degree.Semitone")
+	if fn == nil {
+		return false
+	}
+	enum := c.enumConsts("note", "DegreeName")
+	type res struct {
+		semi int64
+		ok   bool
+	}
+	got := map[string]res{}
+	for name, q := range enum {
+		for n := int64(0); n <= 64; n++ {
+			recv := fval{fields: map[string]fval{"Value": {k: constant.MakeInt64(n)}, "Name": {k: constant.MakeInt64(q)}}}
+			r, err := c.newFolder().foldCall(fn, []fval{recv})
+			if err != nil || len(r.tuple) != 2 || r.tuple[1].k == nil || r.tuple[1].k.Kind() != constant.Bool {
+				if os.Getenv("CRDCHECK_DEBUG") != "" {
+					fmt.Fprintf(os.Stderr, "degreeSizesByFolding: %s %d does not fold: %v %v\n", name, n, err, r)
+				}
+				return false
+			}
+			ok := constant.BoolVal(r.tuple[1].k)
+			var semi int64
+			if ok {
+				if r.tuple[0].k == nil || r.tuple[0].k.Kind() != constant.Int {
+					return false
+				}
+				semi, _ = constant.Int64Val(r.tuple[0].k)
+			}
+			got[fmt.Sprintf("%s/%d", name, n)] = res{semi, ok}
+		}
+	}
+	for _, name := range sortedKeys(enum) {
+		c.site(1)
+		key := "note.Degree.Semitone|folded|" + strings.TrimSuffix(name, "Degree")
+		q, known := degreeNameQuality[name]
+		problem := ""
+		for n := 0; n <= 64 && problem == ""; n++ {
+			g := got[fmt.Sprintf("%s/%d", name, n)]
+			want, valid := 0, false
+			if known && n >= 1 {
+				want, valid = specSize(n, q)
+			}
+			switch {
+			case g.ok != valid:
+				problem = fmt.Sprintf("%s %d: valid=%v, theory says valid=%v", name, n, g.ok, valid)
+			case valid && g.semi != int64(want):
+				problem = fmt.Sprintf("%s %d is %d semitones, theory says %d", name, n, g.semi, want)
+			}
+		}
+		c.check(problem == "", key, c.pos(fn.Pos()), fname(fn), "size and validity for numbers 0..64 agree with the specification (folded)", "note.Degree.Semitone: "+problem)
+	}
+	return true
 }
